@@ -18,6 +18,7 @@ package c10
 import (
 	"bufio"
 	"bytes"
+	"compress/gzip"
 	"encoding/json"
 	"fmt"
 	"io"
@@ -25,9 +26,12 @@ import (
 	"os"
 	"path/filepath"
 	"sort"
+	"strconv"
 	"strings"
 	"sync/atomic"
+	"syscall"
 	"testing"
+	"testing/synctest"
 	"time"
 
 	"github.com/codelaboratoryltd/bng/pkg/nat"
@@ -63,6 +67,11 @@ const (
 	sigLogSubID       = "C10/log/subscriber-id-mismatch"
 	sigLogTimestamp   = "C10/log/no-timestamp"
 	sigLogUnparsable  = "C10/log/unparsable-record"
+	sigLogDup         = "C10/log/duplicate-record" // + /allocate | /deallocate
+	// rotation (LoggerConfig.MaxFileSize > 0)
+	sigRotSameSecond  = "C10/log/rotation/records-lost/two-rotations-within-one-second" // KF-C10-4: rotated names have 1 s resolution
+	sigRotOverwritten = "C10/log/rotation/rotated-file-overwritten"
+	sigRotRemoved     = "C10/log/rotation/rotated-file-removed"
 	sigConcDup        = "C10/concurrent/duplicate-allocate/two-blocks" // KF-C10-2
 	sigConcOverlapDea = "C10/concurrent/overlap/with-deallocations"    // KF-C10-1 seen under concurrent callers
 	sigConcOverlap    = "C10/concurrent/overlap/allocate-only"
@@ -79,6 +88,13 @@ type natCfg struct {
 	Bulk        bool
 	BufSize     int
 	Class       string
+
+	// logger: size-based rotation (nat.LoggerConfig.MaxFileSize / Compress), background flusher, flush cadence
+	MaxFileSize int64 // 0 = no rotation (the only value cmd/bng configures)
+	Compress    bool  // gzip rotated files (a goroutine per rotation)
+	Started     bool  // Logger.Start(): 5 s flush ticker + flush-on-full-buffer goroutine, as cmd/bng does
+	FlushEvery  int   // the harness flushes (and reads the log back) after every FlushEvery-th operation; 0 = 1
+	Prone       bool  // the case may put two rotations into one clock second (see sigRotSameSecond)
 }
 
 func (c natCfg) eff() (rs, re, pps int) {
@@ -95,6 +111,13 @@ func (c natCfg) eff() (rs, re, pps int) {
 	return
 }
 
+func (c natCfg) flushEvery() int {
+	if c.FlushEvery <= 0 {
+		return 1
+	}
+	return c.FlushEvery
+}
+
 // capPerIP is the number of blocks of the configured size that fit into the configured range.
 func (c natCfg) capPerIP() int {
 	rs, re, pps := c.eff()
@@ -102,7 +125,47 @@ func (c natCfg) capPerIP() int {
 }
 
 func (c natCfg) String() string {
-	return fmt.Sprintf("range=%d-%d pps=%d ips=%d bulk=%v buf=%d", c.RS, c.RE, c.PPS, c.NIPs, c.Bulk, c.BufSize)
+	s := fmt.Sprintf("range=%d-%d pps=%d ips=%d bulk=%v buf=%d", c.RS, c.RE, c.PPS, c.NIPs, c.Bulk, c.BufSize)
+	if c.MaxFileSize != 0 || c.Started || c.flushEvery() != 1 {
+		s += fmt.Sprintf(" maxFileSize=%d compress=%v started=%v flushEvery=%d prone=%v", c.MaxFileSize, c.Compress, c.Started, c.flushEvery(), c.Prone)
+	}
+	return s
+}
+
+// recMax bounds the size of one JSON log record of either shape (measured: <= 215 bytes).
+const recMax = 300
+
+var maxFileSizes = []int64{100, 250, 400, 400, 700, 700, 1000, 1000, 1500, 1500, 2500, 5000}
+
+// genLogOpts draws the logger options that matter to rotation.  maxPerFlush(flushEvery) bounds the number of
+// records one flush can write in the calling test.
+//
+// Rotated files are named <path>.<YYYYMMDD-HHMMSS>; on the pinned tree two rotations within one clock second
+// therefore overwrite each other (KF-C10-4).  A case is "prone" when it may contain such a pair (clock not
+// advanced between flushes, or MaxFileSize so small that one flush rotates twice).  While the finding is listed
+// one case in four is prone; otherwise half of them are.
+func genLogOpts(t *rapid.T, c *natCfg, maxPerFlush func(flushEvery int) int) {
+	c.FlushEvery = rapid.SampledFrom([]int{1, 1, 1, 2, 3, 4}).Draw(t, "flushEvery")
+	c.Started = rapid.IntRange(0, 2).Draw(t, "started") == 0
+	if rapid.IntRange(0, 4).Draw(t, "rotate?") == 0 {
+		return
+	}
+	c.MaxFileSize = rapid.SampledFrom(maxFileSizes).Draw(t, "maxFileSize")
+	// every rotation of a compressing logger allocates a gzip writer (~1 MB): fewer, larger files there
+	if c.Compress = rapid.IntRange(0, 3).Draw(t, "compress") == 0; c.Compress && c.MaxFileSize < 700 {
+		c.MaxFileSize = rapid.SampledFrom([]int64{700, 1000, 1500}).Draw(t, "maxFileSizeGz")
+	}
+	proneOdds := 1
+	if vstat.IsListed(sigRotSameSecond) {
+		proneOdds = 3
+	}
+	c.Prone = rapid.IntRange(0, proneOdds).Draw(t, "prone") == 0
+	if !c.Prone {
+		// a flush of k records rotates at most once when the k-1 records after the first do not fill a file
+		if min := int64((maxPerFlush(c.FlushEvery)-1)*recMax + 1); c.MaxFileSize < min {
+			c.MaxFileSize = min
+		}
+	}
 }
 
 var ppsChoices = []int{1, 2, 3, 7, 64, 100, 1000, 1024, 1500, 4096}
@@ -195,14 +258,32 @@ func subOfPriv(s string) int {
 
 var fileCtr atomic.Int64
 
+const logBase = "nat.log"
+
 type env struct {
-	cfg  natCfg
-	m    *nat.Manager
-	lg   *nat.Logger
-	path string
-	rf   *os.File
-	tail []byte // bytes of an incomplete last line
-	pubs []string
+	cfg      natCfg
+	m        *nat.Manager
+	lg       *nat.Logger
+	dir      string // a directory of its own: the log file plus everything rotation leaves next to it
+	path     string
+	pubs     []string
+	inBubble bool // running inside a testing/synctest bubble: the clock is virtual, settle() joins compressors
+
+	prevRot     map[string]string // rotated files seen at the last read: logical name -> content
+	rotations   int               // number of rotated files that appeared so far
+	trigAssign  bool              // some rotated set's next file begins with an assign record (the record that triggered the rotation)
+	trigRelease bool
+	multiFlush  bool // a rotation happened during a flush that wrote more than one record
+	gzRead      bool // a compressed rotated file was read back
+	sawRotated  bool // a rotated file was seen in the directory at some read
+	cache       map[string]cachedFile // rotated files already read, keyed by name; valid while size, mtime and inode are unchanged
+}
+
+type cachedFile struct {
+	size    int64
+	mtime   time.Time
+	ino     uint64
+	content string
 }
 
 func newEnv(t fataler, dir string, cfg natCfg, zl *zap.Logger) *env {
@@ -219,41 +300,55 @@ func newEnv(t fataler, dir string, cfg natCfg, zl *zap.Logger) *env {
 	}, zl)
 	if err != nil {
 		t.Fatalf("harness: NewManager rejected %v: %v", cfg, err)
+		return nil
 	}
-	e := &env{cfg: cfg, m: m}
-	e.path = filepath.Join(dir, fmt.Sprintf("natlog-%d.json", fileCtr.Add(1)))
+	e := &env{cfg: cfg, m: m, prevRot: map[string]string{}, cache: map[string]cachedFile{}}
+	e.dir = filepath.Join(dir, fmt.Sprintf("natlog-%d", fileCtr.Add(1)))
+	if err := os.Mkdir(e.dir, 0o755); err != nil {
+		t.Fatalf("harness: mkdir: %v", err)
+		return nil
+	}
+	e.path = filepath.Join(e.dir, logBase)
 	lg, err := nat.NewLogger(nat.LoggerConfig{Enabled: true, FilePath: e.path, Format: nat.LogFormatJSON,
-		BufferSize: cfg.BufSize, BulkLogging: cfg.Bulk}, zap.NewNop())
+		BufferSize: cfg.BufSize, BulkLogging: cfg.Bulk, MaxFileSize: cfg.MaxFileSize, Compress: cfg.Compress}, zap.NewNop())
 	if err != nil {
 		t.Fatalf("harness: NewLogger: %v", err)
+		return nil
 	}
 	e.lg = lg
 	m.SetLogger(lg)
-	rf, err := os.Open(e.path)
-	if err != nil {
-		t.Fatalf("harness: open log for reading: %v", err)
-	}
-	e.rf = rf
 	for i := 0; i < cfg.NIPs; i++ {
 		if err := m.AddPublicIP(net.ParseIP(pubAddrs[i])); err != nil {
 			t.Fatalf("harness: AddPublicIP: %v", err)
+			return nil
 		}
 		e.pubs = append(e.pubs, pubAddrs[i])
 	}
 	return e
 }
 
-// close stops the logger (the background flusher was never started, so this only
-// flushes and closes the file) and removes the file.
+// start runs the logger's background flusher (only inside a bubble: its ticker must not outlive the case).
+func (e *env) start() {
+	if e.cfg.Started && e.inBubble {
+		e.lg.Start()
+	}
+}
+
+// settle waits until every goroutine of the case (flush loop, compressors) is idle.
+func (e *env) settle() {
+	if e.inBubble {
+		synctest.Wait()
+	}
+}
+
+// close stops the logger (flushes, closes the file, ends the flush loop) and removes the directory.
 func (e *env) close() {
 	if e.lg != nil {
 		e.lg.Stop()
 		e.lg = nil
 	}
-	if e.rf != nil {
-		e.rf.Close()
-	}
-	os.Remove(e.path)
+	e.settle()
+	os.RemoveAll(e.dir)
 }
 
 // logRec is one line of the NAT log, normalised over the two JSON shapes the logger writes.
@@ -267,6 +362,7 @@ type logRec struct {
 	SubID  uint32
 	TS     time.Time
 	Raw    string
+	File   string
 }
 
 type rawRec struct {
@@ -311,43 +407,204 @@ func parseRec(line []byte) (logRec, error) {
 	return out, nil
 }
 
-// readNew flushes the logger and returns the records appended since the last call.  Per step only the
-// buffer of the configured mode is flushed (Logger.Flush re-allocates its whole BufferSize-entry buffer on
-// every call, 200 KB at the default size); all=true flushes both, as the logger's own ticker and Stop do.
-func (e *env) readNew(all bool) ([]logRec, error) {
+// logFile is one member of the rotated set.
+type logFile struct {
+	name    string // file name in the directory
+	logical string // name without ".gz"
+	stamp   string // the YYYYMMDD-HHMMSS part of a rotated file's name ("" for the current file / unknown names)
+	seq     int    // numeric suffix after the stamp, if any
+	current bool
+	content string
+}
+
+// logState is what one read of the whole rotated set shows.
+type logState struct {
+	recs        []logRec
+	files       []logFile
+	overwritten string // a rotated file seen before whose content is now different
+	removed     string // a rotated file seen before that is gone
+	nowStamped  bool   // a rotated file stamped with the current clock second exists
+	rotated     bool   // the rotated set changed since the last read
+}
+
+// flush empties the logger's buffers as its ticker does.  Per step only the buffer of the configured mode is flushed
+// (Logger.Flush re-allocates its whole BufferSize-entry buffer on every call, 200 KB at the default size); all=true
+// flushes both, as the logger's own ticker and Stop do.
+func (e *env) flush(all bool) {
 	if all || !e.cfg.Bulk {
 		e.lg.Flush()
 	}
 	if all || e.cfg.Bulk {
 		e.lg.FlushPortBlocks()
 	}
-	b, err := io.ReadAll(e.rf)
+	e.settle()
+}
+
+// readAll flushes the logger and reads back EVERY file of the rotated set: rotated files oldest first (by the
+// time stamp in the name, then by a numeric suffix if there is one), compressed ones through gzip, the current
+// file last.  pending is the number of records this flush is expected to write (classification only).
+func (e *env) readAll(all bool, pending int) (*logState, error) {
+	e.flush(all)
+	ents, err := os.ReadDir(e.dir)
 	if err != nil {
-		return nil, fmt.Errorf("harness: read log: %w", err)
+		return nil, fmt.Errorf("harness: read log directory: %w", err)
 	}
-	b = append(e.tail, b...)
-	e.tail = nil
-	var recs []logRec
-	sc := bufio.NewReader(bytes.NewReader(b))
-	for {
-		line, err := sc.ReadBytes('\n')
-		if err != nil {
-			if len(line) > 0 {
-				e.tail = append([]byte{}, line...)
+	st := &logState{}
+	have := map[string]bool{}
+	for _, en := range ents {
+		have[en.Name()] = true
+	}
+	for _, en := range ents {
+		n := en.Name()
+		f := logFile{name: n, logical: n}
+		switch {
+		case n == logBase:
+			f.current = true
+		case strings.HasPrefix(n, logBase+"."):
+			e.sawRotated = true
+			suffix := n[len(logBase)+1:]
+			if strings.HasSuffix(suffix, ".gz") {
+				suffix = strings.TrimSuffix(suffix, ".gz")
+				f.logical = strings.TrimSuffix(n, ".gz")
 			}
-			break
-		}
-		line = bytes.TrimSpace(line)
-		if len(line) == 0 {
+			parts := strings.SplitN(suffix, ".", 2)
+			if _, perr := time.Parse("20060102-150405", parts[0]); perr == nil {
+				f.stamp = parts[0]
+				if len(parts) == 2 {
+					if k, cerr := strconv.Atoi(parts[1]); cerr == nil {
+						f.seq = k
+					} else {
+						f.stamp = ""
+					}
+				}
+			}
+		default:
 			continue
 		}
-		r, perr := parseRec(line)
-		if perr != nil {
-			return recs, fmt.Errorf("unparsable: %q: %v", line, perr)
+		// a rotated file is immutable: it is read again only when size, mtime or inode changed (a rename onto it does that)
+		var key cachedFile
+		if !f.current {
+			if fi, ierr := en.Info(); ierr == nil {
+				key = cachedFile{size: fi.Size(), mtime: fi.ModTime()}
+				if sys, ok := fi.Sys().(*syscall.Stat_t); ok {
+					key.ino = sys.Ino
+				}
+				if c, ok := e.cache[n]; ok && c.size == key.size && c.mtime.Equal(key.mtime) && c.ino == key.ino && key.ino != 0 {
+					if strings.HasSuffix(n, ".gz") {
+						e.gzRead = true
+					}
+					f.content = c.content
+					st.files = append(st.files, f)
+					continue
+				}
+			}
 		}
-		recs = append(recs, r)
+		b, err := os.ReadFile(filepath.Join(e.dir, n))
+		if err != nil {
+			return nil, fmt.Errorf("harness: read %s: %w", n, err)
+		}
+		if strings.HasSuffix(n, ".gz") {
+			zr, err := gzip.NewReader(bytes.NewReader(b))
+			if err != nil {
+				return st, fmt.Errorf("unparsable: compressed log file %s: %v", n, err)
+			}
+			if b, err = io.ReadAll(zr); err != nil {
+				return st, fmt.Errorf("unparsable: compressed log file %s: %v", n, err)
+			}
+			e.gzRead = true
+		}
+		if !f.current && key.ino != 0 {
+			key.content = string(b)
+			e.cache[n] = key
+		}
+		f.content = string(b)
+		st.files = append(st.files, f)
 	}
-	return recs, nil
+	sort.SliceStable(st.files, func(i, j int) bool {
+		a, b := st.files[i], st.files[j]
+		if a.current != b.current {
+			return b.current
+		}
+		if (a.stamp == "") != (b.stamp == "") {
+			return a.stamp == "" // names the harness cannot date come first, in name order
+		}
+		if a.stamp != b.stamp {
+			return a.stamp < b.stamp
+		}
+		if a.seq != b.seq {
+			return a.seq < b.seq
+		}
+		return a.name > b.name // X.gz before X (both exist only while / after a failed compression)
+	})
+	now := time.Now().Format("20060102-150405")
+	nowRot := map[string]string{}
+	for fi, f := range st.files {
+		if !f.current {
+			if old, ok := nowRot[f.logical]; ok {
+				nowRot[f.logical] = old + f.content
+			} else {
+				nowRot[f.logical] = f.content
+			}
+			if f.stamp == now {
+				st.nowStamped = true
+			}
+		}
+		sc := bufio.NewReader(strings.NewReader(f.content))
+		first := true
+		for {
+			line, err := sc.ReadBytes('\n')
+			line = bytes.TrimSpace(line)
+			if len(line) > 0 {
+				if err != nil {
+					return st, fmt.Errorf("unparsable: %s ends in an incomplete line %q", f.name, line)
+				}
+				r, perr := parseRec(line)
+				if perr != nil {
+					return st, fmt.Errorf("unparsable: %s: %q: %v", f.name, line, perr)
+				}
+				r.File = f.name
+				st.recs = append(st.recs, r)
+				if first && fi > 0 {
+					// the record that pushed the previous file over the limit is the first one of the next file
+					switch r.Kind {
+					case "assign":
+						e.trigAssign = true
+					case "release":
+						e.trigRelease = true
+					}
+				}
+				first = false
+			}
+			if err != nil {
+				break
+			}
+		}
+	}
+	for name, old := range e.prevRot {
+		cur, ok := nowRot[name]
+		switch {
+		case !ok:
+			st.removed = name
+		case cur != old:
+			st.overwritten = name
+		}
+	}
+	for name := range nowRot {
+		if _, ok := e.prevRot[name]; !ok {
+			st.rotated = true
+			e.rotations++
+		}
+	}
+	if st.overwritten != "" {
+		st.rotated = true
+	}
+	if st.rotated {
+		if pending > 1 {
+			e.multiFlush = true
+		}
+	}
+	e.prevRot = nowRot
+	return st, nil
 }
 
 // ---------------------------------------------------------------------------
@@ -386,21 +643,40 @@ type model struct {
 	everReleased map[string]bool
 	dead         bool
 	hitSig       string
+	violSig      string // first violation (reported outside the bubble through vstat.Fail by report)
+	violMsg      string
+	wantA, wantR map[int]int // blocks handed out / released per subscriber = records the log must hold
+	pending      int         // records produced since the last flush
+	sinceFlush   int         // operations since the last flush
 }
 
 func newModel(cfg natCfg, pubs []string, strictLog bool) *model {
-	m := &model{cfg: cfg, pubs: pubs, live: map[int]block{}, subID: map[int]uint32{}, strictLog: strictLog, everReleased: map[string]bool{}}
+	m := &model{cfg: cfg, pubs: pubs, live: map[int]block{}, subID: map[int]uint32{}, strictLog: strictLog, everReleased: map[string]bool{},
+		wantA: map[int]int{}, wantR: map[int]int{}}
 	m.rs, m.re, m.pps = cfg.eff()
 	return m
 }
 
 func (m *model) logf(f string, a ...any) { m.ops = append(m.ops, fmt.Sprintf(f, a...)) }
 
+// fail records the first violation and ends the case.  Nothing is reported from here: histories run inside a
+// testing/synctest bubble, where rapid's Fatalf must not be called; report() hands the verdict to vstat.Fail
+// afterwards (which counts a listed known finding and fails the test on anything else).
 func (m *model) fail(t fataler, sig, f string, a ...any) {
+	if m.dead {
+		return
+	}
+	m.dead = true
+	m.hitSig = sig
+	m.violSig = sig
+	m.violMsg = fmt.Sprintf("%s\nconfig: %v\nhistory: %s", fmt.Sprintf(f, a...), m.cfg, strings.Join(m.ops, "; "))
+}
+
+// report must be called once per case, outside the bubble.
+func (m *model) report(t fataler) {
 	t.Helper()
-	if vstat.Fail(t, sig, "%s\nconfig: %v\nhistory: %s", fmt.Sprintf(f, a...), m.cfg, strings.Join(m.ops, "; ")) {
-		m.dead = true
-		m.hitSig = sig
+	if m.violSig != "" {
+		vstat.Fail(t, m.violSig, "%s", m.violMsg)
 	}
 }
 
@@ -550,6 +826,8 @@ func (m *model) onAllocResult(t fataler, sub int, a *nat.Allocation, err error) 
 	b.seq = m.seq
 	m.live[sub] = b
 	m.subID[sub] = b.SubID
+	m.wantA[sub]++
+	m.pending++
 	return true
 }
 
@@ -572,6 +850,8 @@ func (m *model) onDealloc(t fataler, sub int, err error) bool {
 	}
 	m.everReleased[fmt.Sprintf("%s/%d", b.Pub, b.Start)] = true
 	delete(m.live, sub)
+	m.wantR[sub]++
+	m.pending++
 	return true
 }
 
@@ -715,20 +995,21 @@ func (m *model) checkLog(t fataler) {
 	}
 }
 
-// step runs one operation against the real manager and applies every oracle.
+// step runs one operation against the real manager and applies every oracle.  The log is flushed and read back
+// after every cfg.FlushEvery-th operation (default: every operation).
 func (m *model) step(t fataler, e *env, alloc bool, sub int, form16 bool) {
 	t.Helper()
 	if m.dead {
 		return
 	}
-	changed := false
 	if alloc {
 		a, err := e.m.AllocateNAT(privIP(sub, form16))
-		changed = m.onAllocResult(t, sub, a, err)
+		m.onAllocResult(t, sub, a, err)
 	} else {
 		err := e.m.DeallocateNAT(privIP(sub, form16))
-		changed = m.onDealloc(t, sub, err)
+		m.onDealloc(t, sub, err)
 	}
+	e.settle()
 	if m.dead {
 		return
 	}
@@ -736,44 +1017,90 @@ func (m *model) step(t fataler, e *env, alloc bool, sub int, form16 bool) {
 	if m.dead {
 		return
 	}
-	recs, err := e.readNew(false)
+	m.sinceFlush++
+	if m.sinceFlush >= m.cfg.flushEvery() {
+		m.syncLog(t, e, false)
+	}
+}
+
+// syncLog flushes the logger, reads the WHOLE rotated set back and judges it:
+//   - every block handed out and every block released so far has produced exactly one record;
+//   - replayed in file order, the records attribute every port of every live block to its holder and nothing else.
+func (m *model) syncLog(t fataler, e *env, all bool) {
+	t.Helper()
+	pending := m.pending
+	m.pending, m.sinceFlush = 0, 0
+	st, err := e.readAll(all, pending)
+	// A case that may put two rotations into one clock second (cfg.Prone) and did rotate: lost or mangled records
+	// are the name collision of KF-C10-4 (the second rename replaces the first rotated file, or races its compressor,
+	// in a different way on every run).  Every other case is built so that no two rotations share a second.
+	proneRot := m.cfg.Prone && e.sawRotated
 	if err != nil {
+		if proneRot {
+			m.fail(t, sigRotSameSecond, "%v (rotations within one clock second are possible in this case)", err)
+			return
+		}
 		m.fail(t, sigLogUnparsable, "%v", err)
 		return
 	}
-	if changed {
-		kind, want := "deallocate", "release"
-		if alloc {
-			kind, want = "allocate", "assign"
-		}
-		n := 0
-		for _, r := range recs {
-			if r.Kind == want && r.Priv == privStr(sub) {
-				n++
+	nA, nR := map[int]int{}, map[int]int{}
+	for _, r := range st.recs {
+		if sub := subOfPriv(r.Priv); sub >= 0 {
+			switch r.Kind {
+			case "assign":
+				nA[sub]++
+			case "release":
+				nR[sub]++
 			}
 		}
-		if n == 0 {
-			m.fail(t, sigLogMissing+"/"+kind, "%s(s%d) changed the table but produced no %s record (new records: %d)", kind, sub, want, len(recs))
-			return
+	}
+	files := func() string {
+		var sb strings.Builder
+		for _, f := range st.files {
+			fmt.Fprintf(&sb, "\n  %s (%d bytes, %d lines)", f.name, len(f.content), strings.Count(f.content, "\n"))
+		}
+		return sb.String()
+	}
+	for s := 0; s < nSubs; s++ {
+		for _, k := range []struct {
+			kind      string
+			got, want int
+		}{{"allocate", nA[s], m.wantA[s]}, {"deallocate", nR[s], m.wantR[s]}} {
+			switch {
+			case k.got < k.want:
+				sig := sigLogMissing + "/" + k.kind
+				why := ""
+				switch {
+				case proneRot:
+					sig = sigRotSameSecond
+					why = " (rotations within one clock second are possible in this case)"
+				case st.overwritten != "":
+					sig = sigRotOverwritten
+					why = fmt.Sprintf(" (the content of rotated file %s was replaced)", st.overwritten)
+				case st.removed != "":
+					sig = sigRotRemoved
+					why = fmt.Sprintf(" (rotated file %s has disappeared)", st.removed)
+				}
+				m.fail(t, sig, "s%d: %d block(s) %sd so far, the log files hold %d such record(s)%s; files:%s", s, k.want, k.kind, k.got, why, files())
+				return
+			case k.got > k.want:
+				m.fail(t, sigLogDup+"/"+k.kind, "s%d: %d block(s) %sd so far, the log files hold %d such records; files:%s", s, k.want, k.kind, k.got, files())
+				return
+			}
 		}
 	}
-	m.applyLog(t, recs)
+	m.logTab = nil
+	m.applyLog(t, st.recs)
 	m.checkLog(t)
 }
 
-// finish flushes everything the logger still buffers (both buffers) and re-checks the attribution.
+// finish flushes everything the logger still buffers (both buffers) and re-checks the whole log.
 func (m *model) finish(t fataler, e *env) {
 	t.Helper()
 	if m.dead {
 		return
 	}
-	recs, err := e.readNew(true)
-	if err != nil {
-		m.fail(t, sigLogUnparsable, "%v", err)
-		return
-	}
-	m.applyLog(t, recs)
-	m.checkLog(t)
+	m.syncLog(t, e, true)
 }
 
 func (m *model) classes() []string {
@@ -808,6 +1135,43 @@ func (m *model) classes() []string {
 	}
 	if m.dead {
 		cls = append(cls, "kf:"+m.hitSig)
+	}
+	return cls
+}
+
+// rotClasses describes what the logger's rotation did in this case (measured from the files, not predicted).
+func (e *env) rotClasses() []string {
+	var cls []string
+	switch {
+	case e.cfg.MaxFileSize == 0:
+		cls = append(cls, "rot:off")
+	case e.rotations == 0:
+		cls = append(cls, "rot:on/0-rotations")
+	case e.rotations == 1:
+		cls = append(cls, "rot:on/1-rotation")
+	default:
+		cls = append(cls, "rot:on/2+rotations")
+	}
+	if e.trigAssign {
+		cls = append(cls, "rot-trigger:allocate-record")
+	}
+	if e.trigRelease {
+		cls = append(cls, "rot-trigger:release-record")
+	}
+	if e.multiFlush {
+		cls = append(cls, "rot-in-multi-record-flush")
+	}
+	if e.gzRead {
+		cls = append(cls, "rot:compressed-file-read")
+	}
+	if e.cfg.Started && e.inBubble {
+		cls = append(cls, "logger:started")
+	}
+	if e.cfg.flushEvery() > 1 {
+		cls = append(cls, "flush:every-k-ops")
+	}
+	if e.cfg.MaxFileSize != 0 && e.cfg.Prone {
+		cls = append(cls, "rot:same-second-prone")
 	}
 	return cls
 }
